@@ -1,5 +1,7 @@
 import L21.Props.C20
 import L21.Props.C20K
+import L21.Props.C20L
+import L21.Props.NumConsts
 #print axioms L21.Determ.c20_pi_independent
 #print axioms L21.Determ.c20_sorted
 #print axioms L21.Determ.c20_same_entries
@@ -7,3 +9,6 @@ import L21.Props.C20K
 #print axioms L21.Determ.c20_sorted_key_independent
 #print axioms L21.Determ.c20_number_only_is_order_dependent
 #print axioms L21.RawProto.c20_export_abstract_order_free
+#print axioms L21.RawLef.c20_lef_abstract_order_free
+#print axioms L21.RawLef.c20_lef_export_order_free
+#print axioms L21.c20_lef_units_from_source
